@@ -53,6 +53,10 @@ def gen(rng, simname, force_str=False):
     case = tune(simcases.gen_case(rng, simname, buggify=False), rng)
     case["seam"] = {"mode": "real"}
     case["seed"] = rng.getrandbits(31)
+    if case.get("infl_kind") == "set":
+        # a user-side set of string labels iterates in hash order: that is the user's nondeterminism,
+        # not EoN's - the harness hands over ordered collections in this check
+        case["infl_kind"] = "tuple"
     if force_str:
         spec = case["graph"]
         n = len(spec["nodes"])
